@@ -17,7 +17,7 @@ namespace igris
         int _count=0;
 
     public:
-        size_t size() const { return _size / _elemsz; }
+        size_t size() const { return _elemsz ? _size / _elemsz : 0; }
 
         size_t room() const { return _count; }
 
